@@ -234,6 +234,27 @@ func readervecMain(args []string) int {
 			}
 		}
 	}
+	// regular files whose stat size says nothing about their content (procfs reports 0): DetectFile and
+	// DetectReader(*os.File) still see the bytes the file delivers
+	for _, p := range []string{"/proc/self/cmdline", "/proc/version", "/proc/self/environ", "/proc/cpuinfo"} {
+		data, err := os.ReadFile(p)
+		if err != nil || len(data) == 0 {
+			continue
+		}
+		for _, lim := range []int{3072, 16, 0} {
+			mimetype.SetLimit(uint32(lim))
+			want := mimetype.Detect(exact(data))
+			got, gerr := mimetype.DetectFile(p)
+			again, _ := os.ReadFile(p)
+			if !bytes.Equal(again, data) {
+				continue // the file changed under us: no verdict
+			}
+			n++
+			if gerr != nil || got.String() != want.String() {
+				rep.violate(Violation{Property: "C05", Kind: "procfs-file-differs-from-bytes", Text: fmt.Sprintf("%s limit %d", p, lim), Limit: int64(lim), Detail: fmt.Sprintf("DetectFile=%s err=%v, Detect on the file's bytes=%s", got, gerr, want), Key: fmt.Sprintf("C05|procfs|%s|%d", p, lim)})
+			}
+		}
+	}
 	// a pipe is a conforming reader too (and an *os.File that is not a regular file)
 	for _, payload := range filePayloads {
 		for _, lim := range []int{0, 7, 3072} {
